@@ -245,9 +245,174 @@ pub fn run(ctx: &Ctx, rep: &mut Report) {
     if rep.failures.is_empty() {
         enumerate(ctx, rep, "word-x-token-x-position", systematic().into_iter(), |c| run_case(ctx, c));
     }
+    if rep.failures.is_empty() {
+        run_transports(ctx, rep);
+    }
 }
 
-pub fn replay(ctx: &Ctx, _engine: &str, case: &J) -> Result<Option<(String, String)>, String> {
+pub fn replay(ctx: &Ctx, engine: &str, case: &J) -> Result<Option<(String, String)>, String> {
     setup_process();
+    if engine.starts_with("transports") {
+        let srv = TServer::start(ctx);
+        return replay_guarded::<TCase>(ctx, case, |c| run_transport_case(&srv, c));
+    }
     replay_guarded::<Case>(ctx, case, |c| run_case(ctx, c))
+}
+
+// ------------------------------------------------------------------------------------------------
+// the same oracle over the real transports (TCP, HTTP, WebSocket servers started in process)
+// ------------------------------------------------------------------------------------------------
+
+#[derive(Clone, Debug, Serialize, Deserialize)]
+pub struct TCase {
+    /// "tcp" | "http" | "ws"
+    pub transport: String,
+    pub auth: Auth,
+    pub lines: Vec<String>,
+    /// ws: the last line is sent once more as a BINARY frame; tcp: the raw bytes are not valid UTF-8
+    pub binary: bool,
+    /// tcp/http: the last line is pipelined this many times in one write / one body
+    pub repeat: u32,
+}
+
+pub struct TServer {
+    pub node: Node,
+    pub tcp: u16,
+    pub http: u16,
+    pub ws: u16,
+}
+
+impl TServer {
+    pub fn start(ctx: &Ctx) -> TServer {
+        setup_process();
+        crate::interpose::set_sleep_hook(None); // real threads, real time here
+        let dir = ctx.fresh_dir();
+        let mut node = Node::boot_single(&dir);
+        let mut admin = Session::new();
+        admin.auth(&node);
+        admin.send(&node, "create-db probe ptok");
+        admin.send(&node, "create-db other-db otok");
+        node.pump();
+        crate::transport::run_services_in_background(&mut node);
+        let dbs = node.dbs.clone();
+        let (tcp, http, ws) = (crate::transport::start_tcp(dbs.clone()), crate::transport::start_http(dbs.clone()), crate::transport::start_ws(dbs));
+        TServer { node, tcp, http, ws }
+    }
+}
+
+fn prefix_lines(auth: &Auth) -> Vec<String> {
+    match auth {
+        Auth::None => vec![],
+        Auth::Admin => vec![format!("auth {} {}", crate::node::USER, crate::node::PWD)],
+        Auth::AdminDb => vec![format!("auth {} {}", crate::node::USER, crate::node::PWD), "use-db probe ptok".to_string()],
+        Auth::DbToken => vec!["use-db probe ptok".to_string()],
+    }
+}
+
+/// after the input: a new connection on each transport is served
+fn probe_transports(srv: &TServer, tag: &str) -> Option<(String, String)> {
+    use crate::transport::*;
+    for attempt in 0..5 {
+        // HTTP has 4 workers: all of them must still answer
+        match http_post(srv.http, &format!("use-db other-db otok;set p h{};get p", attempt)) {
+            Ok((st, body)) if st.contains("200") && body.ends_with(&format!("value h{}\n", attempt)) => {}
+            other => return Some((format!("C10|transport|http-not-served|{}", tag), format!("HTTP probe {}: {:?}", attempt, other))),
+        }
+    }
+    match tcp_exchange(srv.tcp, b"use-db other-db otok\nset p t1\nget p\n", 300, 20_000) {
+        Ok(out) if out.contains("value t1") => {}
+        other => return Some((format!("C10|transport|tcp-not-served|{}", tag), format!("TCP probe: {:?}", other))),
+    }
+    match ws_exchange(srv.ws, vec![Frame::Text("use-db other-db otok".into()), Frame::Text("set p w1".into()), Frame::Text("get p".into())], 400) {
+        Ok(msgs) if msgs.iter().any(|m| m.contains("value w1")) => {}
+        other => return Some((format!("C10|transport|ws-not-served|{}", tag), format!("WebSocket probe: {:?}", other))),
+    }
+    if srv.node.dbs.replication_sender.is_closed() {
+        return Some((format!("C10|transport|replication-loop-dead|{}", tag), "the replication loop's channel is closed".into()));
+    }
+    if srv.node.dbs.replication_supervisor_sender.is_closed() {
+        return Some((format!("C10|transport|supervisor-loop-dead|{}", tag), "the supervisor's channel is closed".into()));
+    }
+    if let Some(l) = srv.node.poisoned() {
+        return Some((format!("C10|transport|poisoned|{}", tag), format!("lock {} is poisoned", l)));
+    }
+    None
+}
+
+pub fn run_transport_case(srv: &TServer, case: &TCase) -> Outcome {
+    use crate::transport::*;
+    let mut lines = prefix_lines(&case.auth);
+    lines.extend(case.lines.iter().cloned());
+    let last = case.lines.last().cloned().unwrap_or_default();
+    for _ in 1..case.repeat.max(1) {
+        lines.push(last.clone());
+    }
+    let tag = format!("{}|{}{}", case.transport, word_of(&last), if case.binary { "|binary" } else { "" });
+    match case.transport.as_str() {
+        "http" => {
+            for _ in 0..5 {
+                // five times: there are four workers
+                let _ = http_post(srv.http, &lines.join(";"));
+            }
+        }
+        "tcp" => {
+            let mut payload: Vec<u8> = (lines.join("\n") + "\n").into_bytes();
+            if case.binary {
+                payload.extend_from_slice(&[0xff, 0xfe, 0x80, b'\n', b'g', b'e', b't', b' ', 0xc3, b'\n']);
+            }
+            let _ = tcp_exchange(srv.tcp, &payload, 200, 5_000);
+        }
+        _ => {
+            let mut frames: Vec<Frame> = lines.iter().map(|l| Frame::Text(l.clone())).collect();
+            if case.binary {
+                frames.push(Frame::Binary(last.as_bytes().to_vec()));
+                frames.push(Frame::Binary(vec![0xff, 0xfe, 0x00, 0x80]));
+            }
+            let _ = ws_exchange(srv.ws, frames, 300);
+        }
+    }
+    let mut out = Outcome::ok(true);
+    out.classes.push(match case.transport.as_str() {
+        "http" => "transport-http",
+        "tcp" => "transport-tcp",
+        _ => "transport-ws",
+    });
+    out.fail = probe_transports(srv, &tag);
+    out
+}
+
+pub fn fixed_transport_cases() -> Vec<TCase> {
+    let mut v = vec![];
+    for t in ["tcp", "http", "ws"] {
+        v.push(TCase { transport: t.into(), auth: Auth::None, lines: vec!["get k".into()], binary: false, repeat: 1 });
+        v.push(TCase { transport: t.into(), auth: Auth::DbToken, lines: vec!["set k 2147483647".into(), "increment k 1".into()], binary: false, repeat: 1 });
+        v.push(TCase { transport: t.into(), auth: Auth::None, lines: vec!["election candidate x".into()], binary: false, repeat: 1 });
+        v.push(TCase { transport: t.into(), auth: Auth::None, lines: vec!["rp 1 get k".into()], binary: false, repeat: 150 });
+        v.push(TCase { transport: t.into(), auth: Auth::DbToken, lines: vec!["get k".into()], binary: true, repeat: 1 });
+        v.push(TCase { transport: t.into(), auth: Auth::AdminDb, lines: vec!["snapshot true probe".into(), "keys".into()], binary: false, repeat: 1 });
+    }
+    v
+}
+
+pub fn transport_case_strategy() -> impl Strategy<Value = TCase> {
+    (select(vec!["tcp", "http", "ws"]), select(vec![Auth::None, Auth::AdminDb, Auth::DbToken]), prop::collection::vec(line_strategy(), 1..4), prop::bool::weighted(0.15), prop_oneof![5 => Just(1u32), 1 => Just(120u32)])
+        .prop_map(|(t, auth, lines, binary, repeat)| TCase { transport: t.to_string(), auth, lines: lines.into_iter().map(|l| l.replace('\n', " ").replace(';', ",")).collect(), binary, repeat })
+}
+
+/// runs the transport engine in this worker: fixed family (quick and thorough) + generated cases (thorough)
+pub fn run_transports(ctx: &Ctx, rep: &mut Report) {
+    let srv = std::cell::RefCell::new(TServer::start(ctx));
+    let eval = |c: &TCase| {
+        let o = run_transport_case(&srv.borrow(), c);
+        if o.fail.is_some() {
+            // the servers may be damaged: later cases get fresh ones
+            let fresh = TServer::start(ctx);
+            *srv.borrow_mut() = fresh;
+        }
+        o
+    };
+    enumerate(ctx, rep, "transports-fixed", fixed_transport_cases().into_iter(), &eval);
+    if !ctx.quick() && rep.failures.is_empty() {
+        explore(ctx, rep, "transports-generated", 6000, transport_case_strategy(), &eval);
+    }
 }
